@@ -58,7 +58,8 @@ structure Blk where
   fStopAsync : Bool := false
   mainFailAt : Option Nat := none   -- the main task raises / returns at this instant
   -- configuration
-  restored : Bool := false          -- persistent block with a saved state
+  persistent : Bool := false        -- AddonPersistence block with persistent=True
+  restored : Bool := false          -- … and the storage holds a saved state of it
   selfInit : Bool := true           -- init_regular() initialises the output
   hasInitdef : Bool := false        -- init_from_value + initdef given
   hasInitAsync : Bool := false
@@ -217,7 +218,7 @@ def blk (bs : List Blk) (k : Nat) : Blk := bs.getD k {}
 
 /-! ### initialisation -/
 
-def Blk.restoredOk (b : Blk) : Bool := b.restored && !b.fRestore
+def Blk.restoredOk (b : Blk) : Bool := b.persistent && b.restored && !b.fRestore
 
 /-- init_async is run: AddonAsync block not yet initialised, init_timeout > 0 -/
 def Blk.wantsInitAsync (b : Blk) : Bool :=
@@ -345,6 +346,7 @@ structure Result where
   timers : List Nat := []           -- pending timer handles then
   error : Option Err := none        -- Circuit._error
   simDone : Bool := false
+  storage : List Nat := []          -- blocks with an entry in the persistent storage afterwards
   deriving Repr, Inhabited
 
 /-- earliest main task failure among the started blocks: (instant, block) -/
@@ -453,6 +455,31 @@ def setS (bs : List Blk) (started : List Nat) : List Nat := started.filter fun k
     clean-up of `run_forever`: a pending cancellation is delivered and swallowed HERE -/
 def consumePending (p : Plan) : Plan := { p with pendingCancel := false }
 
+/-! ### saving the persistent state before the blocks are stopped -/
+
+/-- the block has an output when the simulation is terminated (`get_state()` succeeds) -/
+def outputSet (bs : List Blk) (p : Plan) (k : Nat) : Bool :=
+  let b := blk bs k
+  b.restoredOk || (p.initRes.any fun e => e.k == k && e.res == .ok)
+    || (p.inited.contains k && (b.selfInit || b.hasInitdef))
+
+/-- `AddonPersistence.save_persistent_state`: nothing for a block without persistent=True;
+    the state is stored, or – `get_state()` of an uninitialised block raises, every error is
+    suppressed – a stale entry is removed (`pop(key, None)`: no entry is no error) -/
+def saveOne (bs : List Blk) (p : Plan) (st : List Nat) (k : Nat) : List Nat :=
+  if !(blk bs k).persistent then st
+  else if outputSet bs p k then k :: st.filter (· != k)
+  else st.filter (· != k)
+
+/-- `if start_ok and self.persistent_dict is not None: for blk in started_blocks ∩ AddonPersistence:
+    blk.save_persistent_state()` – it returns normally whatever the blocks' states are -/
+def saveStep (bs : List Blk) (p : Plan) (st : List Nat) : List Nat :=
+  if p.phase != .startFailed && p.phase != .afterStart then p.started.foldl (saveOne bs p) st else st
+
+/-- entries of the storage before the run -/
+def storage0 (bs : List Blk) : List Nat :=
+  (List.range bs.length).filter fun k => (blk bs k).persistent && (blk bs k).restored
+
 /-- the clean-up of `run_forever` after the events of `p`; `none`: `oa`/`os` are not
     enumerations of the two sets -/
 def finish (c : Cfg) (p0 : Plan) : Option Result :=
@@ -486,12 +513,14 @@ def finish (c : Cfg) (p0 : Plan) : Option Result :=
       tasks := tasks1
       timers := cl.st.timers
       error := some (if p.isError then .failure else .cancelled)
-      simDone := true }
+      simDone := true
+      storage := saveStep bs p (storage0 bs) }
 
 def runForever (c : Cfg) : Option Result :=
   if c.cause.before then
     -- `raise self._error` before anything was started
-    some { error := some (if c.cause.kind.isError then .failure else .cancelled), simDone := true }
+    some { error := some (if c.cause.kind.isError then .failure else .cancelled), simDone := true
+           storage := storage0 c.blocks }
   else finish c (plan c)
 
 /-! ### after the run -/
